@@ -53,6 +53,7 @@ var _ io.Reader = (*seedReader)(nil)
 
 // dkgOutcome is what the client of a Generate call saw.
 type dkgOutcome struct {
+	task         *Task
 	State        pb.ResponseState
 	PubKey       []byte
 	Participants []*pb.Endpoint
@@ -64,7 +65,7 @@ type dkgOutcome struct {
 // spawnGenerate submits a Generate request to a node as a scheduled task.
 func (c *Cluster) spawnGenerate(n *Node, client, account string, t, parts uint32) *dkgOutcome {
 	out := &dkgOutcome{}
-	c.S.Spawn("generate:"+account, n.Inst, func(_ *Task) {
+	out.task = c.S.Spawn("generate:"+account, n.Inst, func(_ *Task) {
 		defer func() {
 			if r := recover(); r != nil {
 				out.Panic = fmt.Sprint(r)
@@ -91,7 +92,7 @@ func (c *Cluster) spawnGenerate(n *Node, client, account string, t, parts uint32
 // generation failed; the outcome is that of its last attempt.
 func (c *Cluster) spawnGenerateRetrying(n *Node, client, account string, t, parts uint32, attempts int) *dkgOutcome {
 	out := &dkgOutcome{}
-	c.S.Spawn("generate:"+account, n.Inst, func(_ *Task) {
+	out.task = c.S.Spawn("generate:"+account, n.Inst, func(_ *Task) {
 		defer func() {
 			if r := recover(); r != nil {
 				out.Panic = fmt.Sprint(r)
@@ -479,6 +480,28 @@ func runDKG(t *testing.T, rc *RunCtx) {
 			// the second client asks again at once when it is refused
 			outB = c.spawnGenerateRetrying(c.Nodes[ch.Pick(len(c.Nodes), 0)], "client2", pathB, uint32(thB), uint32(n), 2+ch.Pick(2, 0))
 			rc.Stats.Inc("probe_second_client_retries", 1)
+			// ... and the first client's initiator is slow for a while, from a drawn point of its generation on (between its
+			// rounds of messages, say), long enough for the second client to be refused and to come back.
+			if ch.Pick(2, 0) == 1 {
+				s.Stall(out.task, 1+ch.Pick(8*n, 0), 10+ch.Pick(16*n, 0))
+			} else {
+				// ... or exactly between two rounds: when it is about to send the first message of a round
+				round := []string{"prepare", "execute", "commit"}[ch.Pick(3, 0)]
+				s.StallWhen(out.task, func(p *Park) bool { return p.Kind == KSend && p.Label == round }, 10+ch.Pick(16*n, 0))
+			}
+			if ch.Pick(2, 0) == 1 {
+				// and so is, later and for a while, the second client's, between rounds of its own
+				roundB := []string{"execute", "commit"}[ch.Pick(2, 0)]
+				seen := 0
+				skip := ch.Pick(2, 0) // the first or the second time it gets there
+				s.StallWhen(outB.task, func(p *Park) bool {
+					if p.Kind == KSend && p.Label == roundB {
+						seen++
+						return seen > skip
+					}
+					return false
+				}, 10+ch.Pick(24*n, 0))
+			}
 		} else {
 			outB = c.spawnGenerate(c.Nodes[ch.Pick(len(c.Nodes), 0)], "client2", pathB, uint32(thB), uint32(n))
 		}
